@@ -6,7 +6,9 @@
 (*                                                                         *)
 (*  obs = [state, state_epoch, data_epoch, epoch, imm,                     *)
 (*         inits  = << [epoch, key] >>     stored protocol initializers    *)
-(*         stakes = << [epoch, of_previous_epoch] >>                       *)
+(*         stakes = << [epoch, of_previous_epoch] >>  (not constrained:   *)
+(*                      how stake distributions are keyed is the signer's  *)
+(*                      business; checks/c20.py reports a change as drift) *)
 (*         signed = << [entity, ee, lost_every_lottery] >>                 *)
 (*         regs   = << [epoch, key, others] >>  what the aggregator holds  *)
 (*                      for the signer (LAST registration per epoch)       *)
@@ -95,15 +97,11 @@ RegisteredIsTruthful(o) ==
     o.state \in {"ReadyToSign", "RegisteredNotAbleToSign"} =>
         LET r == o.data_epoch + 1 IN InitKey(o, r) # 0 /\ RegKey(o, r) = InitKey(o, r)
 
-(* the stake distribution stored for a recording epoch is the one in force one epoch earlier *)
-StakesOfPreviousEpoch(o) == \A i \in DOMAIN o.stakes : o.stakes[i].of_previous_epoch
-
 ObsInv(o) ==
     /\ OneSignaturePerBeacon(o)
     /\ \A i \in DOMAIN o.sigs : (EpochKey(o, o.sigs[i]) /\ Accepted(o, o.sigs[i])) \/ Excused(o.sigs[i])
     /\ MarkedWasPublished(o)
     /\ RegisteredIsTruthful(o)
-    /\ StakesOfPreviousEpoch(o)
 
 -----------------------------------------------------------------------------
 (* on two consecutive observations p, o *)
